@@ -39,7 +39,8 @@ class Scripted:
         if len(seq) == 0:
             self.log.append(("idx", 0, None))
             raise IndexError("Cannot choose from an empty sequence")
-        i = self.policy("idx", 0, len(seq) - 1, len(self.log))
+        chooser = getattr(self.policy, "choose", None)
+        i = chooser(seq, len(self.log)) if chooser else self.policy("idx", 0, len(seq) - 1, len(self.log))
         if isinstance(seq, str):
             self.log.append(("chr", len(seq), ord(seq[i])))
         else:
@@ -159,6 +160,19 @@ def make_policy(name, rnd):
                 return a if rnd.random() < 0.5 else min(max(a + (b - a) * rnd.random(), a), b)
             return min(b, a + rnd.choice([0, 0, 1, 1, 2, 3]))
         return pol
+    if name in ("cmax", "cmin"):
+        # choices over a string pick its greatest / smallest character (the order of a set-derived candidate string is
+        # arbitrary, so position-based policies cannot aim at the ends of the alphabet); other draws alternate
+        def pol(kind, a, b, n):
+            return b if (n % 2 == 0) == (name == "cmax") else a
+
+        def choose(seq, n):
+            if isinstance(seq, str):
+                target = max(seq) if name == "cmax" else min(seq)
+                return seq.index(target)
+            return (len(seq) - 1) if name == "cmax" else 0
+        pol.choose = choose
+        return pol
     if name.startswith("one:"):
         # all-low except request number k which takes the high extreme
         k = int(name[4:])
@@ -166,4 +180,4 @@ def make_policy(name, rnd):
     raise BadPolicy(name)
 
 
-POLICIES = ["lo", "hi", "alt", "alt2", "rnd", "small"]
+POLICIES = ["lo", "hi", "alt", "alt2", "rnd", "small", "cmax", "cmin"]
